@@ -451,9 +451,23 @@ def run_history(ctx, model, falcon, table, default_keys, hops_gen, initial):
     for step_no, (i, o, w) in enumerate(hops_gen(world)):
         if i >= len(world.objs):
             i = i % len(world.objs)
+        before = [world.items(j) for j in range(len(world.objs))]
         ob = apply_hop(world, i, o, default_keys)
         wire_ops.append([i, w])
         impl_obs.append(ob)
+        # binding (copy_independent): an operation on one mapping leaves every other mapping alone,
+        # and a copy of a non-empty mapping holds the same items
+        for j, items in enumerate(before):
+            if j != i and world.items(j) != items:
+                ctx.violation('copy-not-independent',
+                              {'what': 'an operation on Handlers object %d changed object %d' % (i, j),
+                               'history': json.loads(json.dumps(wire_ops)), 'initial': [list(x) for x in initial],
+                               'before': items, 'after': world.items(j)}, key='copy-indep')
+        if o[0] == 'copy' and before[i] and world.items(len(world.objs) - 1) != before[i]:
+            ctx.violation('copy-not-independent',
+                          {'what': 'the copy does not hold the items of its source',
+                           'history': json.loads(json.dumps(wire_ops)), 'initial': [list(x) for x in initial],
+                           'source': before[i], 'copy': world.items(len(world.objs) - 1)}, key='copy-items')
         if o[0] == 'resolve':
             # binding: what the CURRENT mapping designates (spec evaluated on the real items)
             key = [[] if o[1] is None else [o[1]], o[2], o[3]]
